@@ -1803,3 +1803,44 @@ PROPS["C06"]["level_text"] += (
     "Spec.NumberAcc.targetInt of c06_via_value are the same function of the literal.")
 # the faithful Value models' theorem modules stay among C01's targets whatever earlier statements assigned (leanchecker re-checks `.Props.` targets)
 PROPS["C01"]["lean_targets"] = PROPS["C01"]["lean_targets"][:-1] + [t for t in ("SJ.Props.C01Ap", "SJ.Props.C01Rv") if t not in PROPS["C01"]["lean_targets"]] + PROPS["C01"]["lean_targets"][-1:]
+
+# ---- generator / oracle upgrades after the third round of seeded changes (branch wip-g2): C04-6, C05-7, C16-6, C17-7
+PROPS["C04"]["rule"] += (" Op rtw (same model and specification as rtm, fixed cases named <container>-<variant kind>-<n>): WIDE typed "
+    "documents - n = 100, 126, 127, 128, 130, 300 (and 1000 for the mixed kind; thorough: for all) values of "
+    "enum Shape { Unit, Newtype(u32), Tuple(i8, String), Struct { a: bool, b: Option<char> } } of one variant kind (unit / newtype / "
+    "tuple / struct / the three non-unit kinds in rotation) side by side in a Vec, in a BTreeMap<u16, _>, or spread over "
+    "struct Doc { first: Vec<_>, second: (Vec<_>, Vec<_>), last: _ }: nesting at most 5, so reading one value back may not depend on how "
+    "many siblings were read before it (a recursion budget that is not given back shows near 127 siblings).")
+PROPS["C14"]["rule"] += (" Op ttd also carries WIDE documents (100 ... 300 siblings of each of the ten layer kinds - newtype / tuple / struct enum "
+    "variants, one-field structs as object and as array, one-element arrays, tuples and maps - side by side in one array and in one "
+    "object; counted nesting 2 or 3): the verdict 'accepted iff at most 127 "
+    "counted containers are open at the deepest point' requires that the budget a container takes is restored when it closes.")
+PROPS["C05"]["rule"] += (" Op rsa (harness/src/readers.rs, handler in Drv/Readers.lean): the literals of op rs requested through the "
+    "SELF-DESCRIBING route - Deserializer::deserialize_any with a custom Visitor reporting visit_borrowed_str (B<offset>: the pointer "
+    "lies inside the input) / visit_str (C) / visit_string (S) - as top-level value (every literal, malformed ones included) and, for "
+    "complete well-formed literals, as array element, map key (MapKey::deserialize_any) and map value, tightly and with whitespace and "
+    "neighbours around; plus the derived #[serde(untagged)] enum Untagged<'a> { Num(u64), Text(&'a str) } at top level and inside a Vec "
+    "(serde's Content buffering: Text exists only if the string arrived borrowed); from_str / from_slice / from_reader each. Model: "
+    "Model.ReadSlice (its Reference is Borrowed or Copied) at the literal's offset for str / slice, Model.ReadIo for the reader. "
+    "Specification (Spec.Rec + Spec.Canon give extent and decoding, independent of both models): from str / slice the visitor is handed "
+    "a borrowed string - the subslice input[p .. end-1] - exactly when the body has no backslash and a transient one otherwise, from a "
+    "reader never a borrowed one, the bytes are the RFC 8259 decoding, and Text(&str) exists for every escape-free literal.")
+PROPS["C16"]["configs"] = dict(quick=list(PROPS["C16"]["configs"]["quick"]) + ["rv"], thorough=list(PROPS["C16"]["configs"]["thorough"]) + ["rv"])
+PROPS["C16"]["rule"] += (" Op c16x (spec-only: three-way agreement, no model) under arbitrary_precision / raw_value also takes Values "
+    "built by Map::insert whose objects are keyed by the PRIVATE TOKENS $serde_json::private::Number / $serde_json::private::RawValue: "
+    "20 payloads (numeric, non-numeric and empty strings, strings with surrounding blanks, JSON texts, a number, null, true, an array, an "
+    "object) x 9 shapes (the token alone, with a second key after it, with a key before it, inside arrays, as the n / m / skip / payload "
+    "fields of structs, nested in itself) for the targets Value, Map<String, Value>, Number, Option<Number>, Vec<Number>, WithNumber, "
+    "IgnoredAny, BTreeMap<String, KEnum>: from_value (keys by visit_string), &Value (visit_str) and the text route must treat the object "
+    "the same way (on the unchanged crate they do: 0 disagreements). The raw_value configuration of C16 runs op c16x only. The driver "
+    "caps the printed specification failures per OPERATION (200 each), so that the cases of the open ap findings of op c16 cannot hide "
+    "failures of op c16x.")
+PROPS["C17"]["rule"] += (" Op mapiter <cfg> <history> <k>: the map is built by the history (fixed: 0..9 keys inserted ascending / "
+    "descending / shuffled, every k up to len + 1; random: the histories of maphist, k in {0, 1, len - 1, random <= len + 1}); for each "
+    "of the seven iterator wrappers of map.rs - iter(), iter_mut(), into_iter(), keys(), values(), values_mut(), into_values() - the "
+    "harness observes forward collect, rev() collect, nth(k) + rest, nth_back(k) + rest, rev().nth(k), rev().skip(k), rev().step_by(2), "
+    "skip(k), step_by(k+1), rev().step_by(k+1), len() / size_hint() fresh and after next(), next()+next_back(), nth(k), nth_back(k), "
+    "last(), next / next_back / next / next_back + rest, nth_back(k) then nth(k) + rest + len(). Model: plain list functions "
+    "(drop / take / reverse / getLast / every s-th element) of the entry list of Model.MapBTree / Model.MapIndex after the history. "
+    "Specification (independent of the map models): the same list functions of the list the crate's own iter() collected forward - a "
+    "double-ended exact-size iterator over the forward entry list - compared field by field with everything the crate returned.")
